@@ -1,23 +1,97 @@
 (* The tie by translation: Gen/FuncTerms.v holds the GoLite terms the translator produced from the CURRENT bodies of the
-   loop-free function detectors of internal/magic.  After normalisation (re-association of && / ||, which preserves
-   Go's evaluation order, short-circuiting and therefore the Panic semantics) each one must be syntactically equal to
+   loop-free function detectors of internal/magic.  After normalisation (the program read as one
+   expression, negations pushed to the atoms, && / || re-associated and their units dropped: every step preserves Go's
+   evaluation order, short-circuiting and therefore the Panic semantics, norm_sound / normp_sound below) each one must be syntactically equal to
    the hand-written term the theorems are about: the obligation is re-checked by vm_compute on every run, so an
    edit of such a function body shows up as a broken obligation, not only as a behavioural difference. *)
 From Coq Require Import Lia.
-From Verif Require Import Base.Bytes Model.Types Model.GoLite Model.Detectors Gen.FuncTerms Proofs.BytesP Proofs.GoLiteP.
+From Verif Require Import Base.Bytes Model.Types Model.GoLite Model.Detectors Gen.SigData Gen.FuncTerms Proofs.BytesP Proofs.GoLiteP.
 Local Open Scope nat_scope.
 
+(* ---- inlining ---- *)
+Lemma inl_sound : forall p raw, evalb (inl p) raw = evalp p raw.
+Proof.
+  induction p as [e|c v rest IH]; intros raw; [reflexivity|].
+  rewrite evalp_if. destruct v; cbn [inl].
+  - rewrite evalb_or, IH. reflexivity.
+  - rewrite evalb_and, evalb_not, IH. destruct (evalb c raw) as [[|]|]; reflexivity.
+Qed.
+
+(* ---- negation normal form: negations pushed to the atoms; comparisons absorb them ---- *)
+Definition cneg (c : cmp) : cmp :=
+  match c with CEq => CNe | CNe => CEq | CLt => CGe | CGe => CLt | CLe => CGt | CGt => CLe end.
+Lemma cmpN_cneg c a v : cmpN (cneg c) a v = negb (cmpN c a v).
+Proof.
+  destruct c; cbn [cneg cmpN].
+  - reflexivity.
+  - symmetry; apply Bool.negb_involutive.
+  - apply N.leb_antisym.
+  - apply N.ltb_antisym.
+  - apply N.leb_antisym.
+  - apply N.ltb_antisym.
+Qed.
+Lemma cmpnat_cneg c a k : cmpnat (cneg c) a k = negb (cmpnat c a k).
+Proof.
+  destruct c; cbn [cneg cmpnat].
+  - reflexivity.
+  - symmetry; apply Bool.negb_involutive.
+  - apply Nat.leb_antisym.
+  - apply Nat.ltb_antisym.
+  - apply Nat.leb_antisym.
+  - apply Nat.ltb_antisym.
+Qed.
+Definition cn (neg : bool) (c : cmp) : cmp := if neg then cneg c else c.
+
+Fixpoint nnf (neg : bool) (e : bexp) : bexp :=
+  match e with
+  | BConst v => BConst (if neg then negb v else v)
+  | BLen c k => BLen (cn neg c) k
+  | BByte i c v => BByte i (cn neg c) v
+  | BU16 en o c v => BU16 en o (cn neg c) v
+  | BU32 en o c v => BU32 en o (cn neg c) v
+  | BPrefixAt _ _ | BEqualSlice _ _ _ | BContainsWin _ _ _ => if neg then BNot e else e
+  | BNot a => nnf (negb neg) a
+  | BAnd a c => if neg then BOr (nnf true a) (nnf true c) else BAnd (nnf false a) (nnf false c)
+  | BOr a c => if neg then BAnd (nnf true a) (nnf true c) else BOr (nnf false a) (nnf false c)
+  end.
+
+Definition rneg (neg : bool) (r : res bool) : res bool :=
+  match r with Val v => Val (if neg then negb v else v) | Panic => Panic end.
+Lemma rneg_false r : rneg false r = r. Proof. destruct r as [[|]|]; reflexivity. Qed.
+
+Lemma nnf_sound : forall e neg raw, evalb (nnf neg e) raw = rneg neg (evalb e raw).
+Proof.
+  induction e as [v|cm k|i cm v|o l|lo hi l|en o cm v|en o cm v|lo cp l|a IH|a1 IH1 a2 IH2|a1 IH1 a2 IH2]; intros neg raw.
+  - reflexivity.
+  - destruct neg; cbn [nnf cn evalb rneg]; [rewrite cmpnat_cneg|]; reflexivity.
+  - destruct neg; cbn [nnf cn evalb rneg]; destruct (get raw i); cbn [rneg]; try reflexivity. rewrite cmpN_cneg; reflexivity.
+  - destruct neg; cbn [nnf]; [rewrite evalb_not|]; destruct (evalb (BPrefixAt o l) raw) as [[|]|]; reflexivity.
+  - destruct neg; cbn [nnf]; [rewrite evalb_not|]; destruct (evalb (BEqualSlice lo hi l) raw) as [[|]|]; reflexivity.
+  - destruct neg; cbn [nnf cn evalb rneg]; destruct (slice raw o (o + 2)); cbn [rneg]; try reflexivity. rewrite cmpN_cneg; reflexivity.
+  - destruct neg; cbn [nnf cn evalb rneg]; destruct (slice raw o (o + 4)); cbn [rneg]; try reflexivity. rewrite cmpN_cneg; reflexivity.
+  - destruct neg; cbn [nnf]; [rewrite evalb_not|]; destruct (evalb (BContainsWin lo cp l) raw) as [[|]|]; reflexivity.
+  - cbn [nnf]. rewrite IH, evalb_not. destruct neg, (evalb a raw) as [[|]|]; reflexivity.
+  - destruct neg; cbn [nnf]; rewrite ?evalb_or, !evalb_and, IH1, ?IH2; destruct (evalb a1 raw) as [[|]|]; cbn [rneg]; try reflexivity;
+      rewrite ?IH2; try reflexivity; destruct (evalb a2 raw) as [[|]|]; reflexivity.
+  - destruct neg; cbn [nnf]; rewrite ?evalb_and, !evalb_or, IH1, ?IH2; destruct (evalb a1 raw) as [[|]|]; cbn [rneg]; try reflexivity;
+      rewrite ?IH2; try reflexivity; destruct (evalb a2 raw) as [[|]|]; reflexivity.
+Qed.
+
+(* ---- re-association of && / || (evaluation order kept) and removal of the units `|| false`, `&& true` ---- *)
 Fixpoint and_app (a c : bexp) : bexp := match a with BAnd x y => BAnd x (and_app y c) | _ => BAnd a c end.
 Fixpoint or_app (a c : bexp) : bexp := match a with BOr x y => BOr x (or_app y c) | _ => BOr a c end.
-Fixpoint norm (e : bexp) : bexp :=
+Definition is_const (v : bool) (e : bexp) : bool := match e with BConst w => Bool.eqb v w | _ => false end.
+Definition and_u (a c : bexp) : bexp := if is_const true c then a else if is_const true a then c else and_app a c.
+Definition or_u (a c : bexp) : bexp := if is_const false c then a else if is_const false a then c else or_app a c.
+Fixpoint flat (e : bexp) : bexp :=
   match e with
-  | BAnd a c => and_app (norm a) (norm c)
-  | BOr a c => or_app (norm a) (norm c)
-  | BNot a => BNot (norm a)
+  | BAnd a c => and_u (flat a) (flat c)
+  | BOr a c => or_u (flat a) (flat c)
+  | BNot a => BNot (flat a)
   | _ => e
   end.
-Fixpoint normp (p : prog) : prog :=
-  match p with PRet e => PRet (norm e) | PIfRet c v rest => PIfRet (norm c) v (normp rest) end.
+Definition norm (e : bexp) : bexp := flat (nnf false e).
+Definition normp (p : prog) : bexp := norm (inl p).
 
 Lemma and_app_sound a c raw : evalb (and_app a c) raw = evalb (BAnd a c) raw.
 Proof.
@@ -31,20 +105,36 @@ Proof.
   cbn [or_app]. rewrite !evalb_or. rewrite IH2. rewrite !evalb_or.
   destruct (evalb a1 raw) as [[|]|]; try reflexivity.
 Qed.
+Lemma is_const_eq v e : is_const v e = true -> e = BConst v.
+Proof. destruct e; try discriminate. cbn [is_const]. intros H. apply Bool.eqb_prop in H. congruence. Qed.
+Lemma and_u_sound a c raw : evalb (and_u a c) raw = evalb (BAnd a c) raw.
+Proof.
+  unfold and_u. destruct (is_const true c) eqn:Ec.
+  - apply is_const_eq in Ec. subst c. rewrite evalb_and. destruct (evalb a raw) as [[|]|]; reflexivity.
+  - destruct (is_const true a) eqn:Ea.
+    + apply is_const_eq in Ea. subst a. reflexivity.
+    + apply and_app_sound.
+Qed.
+Lemma or_u_sound a c raw : evalb (or_u a c) raw = evalb (BOr a c) raw.
+Proof.
+  unfold or_u. destruct (is_const false c) eqn:Ec.
+  - apply is_const_eq in Ec. subst c. rewrite evalb_or. destruct (evalb a raw) as [[|]|]; reflexivity.
+  - destruct (is_const false a) eqn:Ea.
+    + apply is_const_eq in Ea. subst a. reflexivity.
+    + apply or_app_sound.
+Qed.
 
-Theorem norm_sound : forall e raw, evalb (norm e) raw = evalb e raw.
+Lemma flat_sound : forall e raw, evalb (flat e) raw = evalb e raw.
 Proof.
   induction e as [v|cm k|i cm v|o l|lo hi l|en o cm v|en o cm v|lo cp l|a IH|a1 IH1 a2 IH2|a1 IH1 a2 IH2]; intros raw; try reflexivity.
-  - cbn [norm]. rewrite !evalb_not, IH. reflexivity.
-  - cbn [norm]. rewrite and_app_sound, !evalb_and, IH1, IH2. reflexivity.
-  - cbn [norm]. rewrite or_app_sound, !evalb_or, IH1, IH2. reflexivity.
+  - cbn [flat]. rewrite !evalb_not, IH. reflexivity.
+  - cbn [flat]. rewrite and_u_sound, !evalb_and, IH1, IH2. reflexivity.
+  - cbn [flat]. rewrite or_u_sound, !evalb_or, IH1, IH2. reflexivity.
 Qed.
-Theorem normp_sound : forall p raw, evalp (normp p) raw = evalp p raw.
-Proof.
-  induction p as [e|c v rest IH]; intros raw; cbn [normp].
-  - rewrite !evalp_ret. apply norm_sound.
-  - rewrite !evalp_if, norm_sound, IH. reflexivity.
-Qed.
+Theorem norm_sound : forall e raw, evalb (norm e) raw = evalb e raw.
+Proof. intros e raw. unfold norm. rewrite flat_sound, nnf_sound. apply rneg_false. Qed.
+Theorem normp_sound : forall p raw, evalb (normp p) raw = evalp p raw.
+Proof. intros p raw. unfold normp. rewrite norm_sound. apply inl_sound. Qed.
 
 (* decidable syntactic equality *)
 Definition cmp_eqb (a c : cmp) : bool :=
@@ -105,7 +195,7 @@ Qed.
 (* the regenerated obligation: every translated body that has a hand-written term equals it up to normalisation *)
 Definition translation_agrees : bool :=
   forallb (fun ng => match assoc (fst ng) func_terms with
-                     | Some h => prog_eqb (normp h) (normp (snd ng))
+                     | Some h => bexp_eqb (normp h) (normp (snd ng))
                      | None => true
                      end) gen_func_terms.
 
@@ -127,5 +217,39 @@ Theorem translated_terms_equal : translation_agrees = true ->
 Proof.
   intros Hag name g h raw Hin Hh. unfold translation_agrees in Hag. rewrite forallb_forall in Hag.
   specialize (Hag (name, g) Hin). cbn [fst snd] in Hag. rewrite Hh in Hag.
-  apply prog_eqb_eq in Hag. rewrite <- (normp_sound h raw), <- (normp_sound g raw), Hag. reflexivity.
+  apply bexp_eqb_eq in Hag. rewrite <- (normp_sound h raw), <- (normp_sound g raw), Hag. reflexivity.
+Qed.
+
+(* ---- the combinators prefix / offset / ftyp / jpeg2k: for every registered signature built by one of them, the closure
+   body of the combinator in the CURRENT source, with its parameters bound to the literal arguments of that use, equals
+   the term the model evaluates for that signature (prefix_term etc. applied to the generated arguments) ---- *)
+Definition comb_hand (d : det) : option prog :=
+  match d with
+  | DPrefix sg => Some (prefix_term sg)
+  | DOffset sg off => Some (offset_term sg off)
+  | DFtyp sg => Some (ftyp_term sg)
+  | DJpeg2k sg => Some (jpeg2k_term sg)
+  | _ => None
+  end.
+Definition comb_translation_agrees : bool :=
+  forallb (fun ng => match assoc (fst ng) sigs with
+                     | Some d => match comb_hand d with Some h => bexp_eqb (normp h) (normp (snd ng)) | None => false end
+                     | None => false
+                     end) gen_comb_terms
+  && forallb (fun nd => match comb_hand (snd nd) with
+                        | Some _ => match assoc (fst nd) gen_comb_terms with Some _ => true | None => false end
+                        | None => true
+                        end) sigs.
+
+Theorem comb_terms_equal : comb_translation_agrees = true ->
+  forall name d h raw, assoc name sigs = Some d -> comb_hand d = Some h ->
+    exists g, assoc name gen_comb_terms = Some g /\ evalp h raw = evalp g raw.
+Proof.
+  intros Hag name d h raw Hd Hh. unfold comb_translation_agrees in Hag. apply andb_true_iff in Hag as [H1 H2].
+  rewrite forallb_forall in H1, H2.
+  specialize (H2 (name, d) (assoc_in _ _ _ Hd)). cbn [fst snd] in H2. rewrite Hh in H2.
+  destruct (assoc name gen_comb_terms) as [g|] eqn:Eg; [|discriminate H2].
+  exists g. split; [reflexivity|].
+  specialize (H1 (name, g) (assoc_in _ _ _ Eg)). cbn [fst snd] in H1. rewrite Hd, Hh in H1.
+  apply bexp_eqb_eq in H1. rewrite <- (normp_sound h raw), <- (normp_sound g raw), H1. reflexivity.
 Qed.
